@@ -75,7 +75,7 @@ theorem C15_sign (fmt : Fmt) (r : Req) (e : Env) (c : Content)
   | ok p =>
     rw [hp] at h
     simp only [] at h
-    obtain ⟨_, _, _, _, _, _, _, _, _, _, _, _, _, _, a15⟩ := (prepare_ok_iff fmt r p).mp hp
+    obtain ⟨_, _, _, _, _, _, _, _, _, _, _, _, _, _, a15, _⟩ := (prepare_ok_iff fmt r p).mp hp
     obtain ⟨_, _, hc⟩ := (finish_ok_iff fmt r p c).mp h
     unfold tsStep at a15
     simp only [hscheme, beq_self_eq_true, if_true, hts, outcome, Bool.not_true, Bool.false_eq_true, if_false] at a15
@@ -126,7 +126,7 @@ theorem C15_not_contacted (fmt : Fmt) (r : Req) (ts' : TsOutcome)
     | ok p =>
       rw [hp] at hc
       simp only [] at hc
-      obtain ⟨_, _, _, _, _, _, _, _, _, _, _, _, _, _, a15⟩ := (prepare_ok_iff fmt r p).mp hp
+      obtain ⟨_, _, _, _, _, _, _, _, _, _, _, _, _, _, a15, _⟩ := (prepare_ok_iff fmt r p).mp hp
       obtain ⟨_, _, hcc⟩ := (finish_ok_iff fmt r p c).mp hc
       have : p.tst = "" := by
         unfold tsStep at a15
